@@ -213,3 +213,44 @@ Definition runtime (s:st) (o:op) : bool :=
   | SetDV k _ => 4 <=? d_inval (get_dv k s)
   | _ => false
   end.
+
+(** several State objects: the specification of copy construction, copy assignment and move assignment *)
+Definition gworld := list gst.
+Definition gwstep (W:gworld) (o:wop) : gworld * bool :=
+  match o with
+  | On i o' => if i <? length W then let '(G',t) := gstep (nth i W (mkG 0 [])) o' in (upd_nth i (fun _ => G') W, t) else (W,true)
+  | CopyC d s_ => if (d <? length W) && (s_ <? length W) then (upd_nth d (fun _ => g_copy (nth s_ W (mkG 0 []))) W, false) else (W,true)
+  | Assign d s_ => if (d <? length W) && (s_ <? length W) then
+                     if d =? s_ then (W,false) else (upd_nth d (fun _ => g_copy (nth s_ W (mkG 0 []))) W, false)
+                   else (W,true)
+  | Move d s_ => if (d <? length W) && (s_ <? length W) then
+                   (upd_nth s_ (fun _ => nth d W (mkG 0 [])) (upd_nth d (fun _ => nth s_ W (mkG 0 [])) W), false) else (W,true)
+  end.
+Fixpoint gwrun (W:gworld) (l:list wop) : gworld := match l with [] => W | o::t => gwrun (fst (gwstep W o)) t end.
+
+(** traces: thrown-or-not and the observation after every operation *)
+Fixpoint trace (cf:cfg) (s:st) (l:list op) : list (bool * (stage * list (stage * list bool))) :=
+  match l with [] => [] | o::t => let r := step cf s o in (snd r, obs (fst r)) :: trace cf (fst r) t end.
+Fixpoint gtrace (G:gst) (l:list op) : list (bool * (stage * list (stage * list bool))) :=
+  match l with [] => [] | o::t => let r := gstep G o in (snd r, gobs (fst r)) :: gtrace (fst r) t end.
+(** every operation of the sequence is a run-time operation and none is a deviation event *)
+Fixpoint legal_run (cf:cfg) (s:st) (l:list op) : bool :=
+  match l with [] => true | o::t => runtime s o && legal cf s o && legal_run cf (fst (step cf s o)) t end.
+
+(** executable form of the invariants of the refinement proof (C18_Refine.v [WF], [Dyn]); sound by C18_Refine3.v;
+    also evaluated by the correspondence driver on every state it reaches *)
+Definition wf_check (s:st) : bool :=
+  forallb (fun E => c_q (get_ce E s)) (qd s) && forallb (fun E => c_u (get_ce E s)) (ud s) && forallb (fun E => c_z (get_ce E s)) (zd s)
+  && forallb (fun E => let c := get_ce E s in
+        implb (c_q c) (mem_key E (qd s)) && implb (c_u c) (mem_key E (ud s)) && implb (c_z c) (mem_key E (zd s))
+        && forallb (fun P => mem_key E (c_deps (get_ce P s))) (c_ces c)
+        && forallb (fun D => mem_key E (c_ces (get_ce D s))) (c_deps c)
+        && forallb (fun dk => mem_key E (d_deps (get_dv dk s))) (c_dvs c)
+        && (c_alloc c <=? 3) && (c_dep c <=? 9)) (all_ce_keys s)
+  && forallb (fun dk => let d := get_dv dk s in forallb (fun E => mem_key dk (c_dvs (get_ce E s))) (d_deps d) && (d_alloc d <=? 3)) (all_dv_keys s)
+  && forallb (fun b => forallb (fun x => fst x <=? 3) (s_qs b) && forallb (fun x => fst x <=? 3) (s_us b) && forallb (fun x => fst x <=? 3) (s_zs b)) (subs s).
+Definition dyn_check (s:st) : bool :=
+  forallb (fun b => forallb (fun j => 1 <=? getv (s_ver b) j) (seq 0 11)) (subs s)
+  && forallb (fun k => let c := get_ce k s in let b := get_sub (fst k) s in
+        (c_verWhen c <=? getv (s_ver b) (c_dep c))
+        && implb (c_ok c && (getv (s_ver b) (c_dep c) =? c_verWhen c)) (c_dep c <=? s_stage b)) (all_ce_keys s).
